@@ -48,7 +48,7 @@ AX2_MORE = [[0, "U1", []], [1, "G4", [1, 1]], [4, "G4", [2, 3]]]
 AX3 = [[1, "U2", [1]], [2, "U2", [2]], [1, "G4", [1, 1]], [0, "U2", [1]], [3, "U1", []]]
 TRIPLES_QUICK = [(0, 1, 2), (2, 0, 1), (3, 4, 0), (1, 3, 2), (2, 2, 2), (4, 0, 3)]
 
-GEOS = {1: ["none"], 2: ["none", "identity", "affine", "mirror", "multilinear", "nurbs"],
+GEOS = {1: ["none"], 2: ["none", "identity", "affine", "mirror", "multilinear", "nurbs", "nurbs-small"],
         3: ["none", "identity", "affine", "mirror", "multilinear", "nurbs"]}
 IGEOS = {1: ["none", "identity", "affine", "quadratic"], 2: ["none", "affine", "mirror", "multilinear", "nurbs"],
          3: ["none", "affine", "multilinear", "nurbs"]}
@@ -87,7 +87,7 @@ def cases(tier, seed):
         d = len(axes)
         sp = None
         for g in GEOS[d]:
-            if g == "nurbs" and any(KV.PATTERNS[a[1]][0] != 0.0 or KV.PATTERNS[a[1]][-1] != 1.0 for a in axes):
+            if g.startswith("nurbs") and any(KV.PATTERNS[a[1]][0] != 0.0 or KV.PATTERNS[a[1]][-1] != 1.0 for a in axes):
                 continue
             cs.append({"part": "l2", "axes": axes, "geo": g, "seed": seed})
         for sch in SCHEMES:
